@@ -502,10 +502,14 @@ where
                 self.model.clear();
                 self.t_last = i32::MIN;
                 if use_dump {
+                    // what a cleared tree still holds physically is judged by no segment-tree property as
+                    // long as it is never yielded (C12 / C03 judge the answers); it is only counted. The
+                    // place lists, however, must still back every usable place (C14) after a clear.
                     let d = self.sut.verif_dump();
                     if !d.copies.is_empty() {
-                        return Err(Fail::new("clear:copies-left", format!("{} copies still stored after clear", d.copies.len())));
+                        rep.counters.inc("clears_that_left_copies_physically_stored");
                     }
+                    self.check_dump(mon, rep, None, None)?;
                 }
                 Ok(Obs::Unit)
             }
